@@ -237,7 +237,6 @@ def gen_case(rng, pid, tier):
                     # (side stream) the session expires between the placement check and the delete; the master
                     # moves the instance; whatever the client library does next, the decision is stale
                     ops.append(['publish', i, h, inst, 'cutdelete'])
-                    ops.append(['expire', i, 1])
                     ops.append(['envdel', '/placement/%s/%s#%010d' % (host_name(h), APP, inst)])
                     ops.append(['envput', '/placement/%s/%s#%010d' % (host_name(h % n + 1), APP, inst), ''])
                     ops.append(['run', i])
@@ -547,6 +546,23 @@ def run_impl(case, pid):
             run.tags.add('watch')
         resume(proc)
 
+    def do_expire(proc, keep):
+        flags['expire'] = True
+        run.tags.add('expire-keep' if keep else 'expire-restart')
+        cur['proc'] = None
+        was_busy = proc.busy
+        server.expire(proc.client)
+        if was_busy:
+            run.tags.add('abort-in-flight')
+            resume(proc, throw=ke.SessionExpiredError())
+        if keep:
+            proc.client.reconnect()
+        else:
+            proc.client.gate = None
+            _mk_service(proc, server, on_retry)      # the process restarted
+            proc.res = 'aborted' if was_busy else '-'
+        emit('expire %d %d' % (proc.idx, keep))
+
     def pub_advance(proc):
         """Run the tracked calls of a `publish` request (placement check, listing, delete) without pausing;
         stop where the next call is one of its untracked writes (or it is done)."""
@@ -675,6 +691,9 @@ def run_impl(case, pid):
                         step(proc)
                         emit(('ustep %d' if was_untracked else 'step %d') % proc.idx)
                     run.tags.add('publish-stopped-before-delete' if proc.busy else 'publish-nothing-to-delete')
+                    # ... and there the session expires (part of this op, so that no history has the pause without
+                    # the expiry: a pause alone is the check-then-act window every client of ZooKeeper has)
+                    do_expire(proc, 1)
                     continue
                 pub_advance(proc)
             elif k == 'step':
@@ -689,22 +708,7 @@ def run_impl(case, pid):
             elif k == 'run':
                 _run_to_idle(proc, step, emit)
             elif k == 'expire':
-                keep = 1 if op[2] else 0
-                flags['expire'] = True
-                run.tags.add('expire-keep' if keep else 'expire-restart')
-                cur['proc'] = None
-                was_busy = proc.busy
-                server.expire(proc.client)
-                if was_busy:
-                    run.tags.add('abort-in-flight')
-                    resume(proc, throw=ke.SessionExpiredError())
-                if keep:
-                    proc.client.reconnect()
-                else:
-                    proc.client.gate = None
-                    _mk_service(proc, server, on_retry)      # the process restarted
-                    proc.res = 'aborted' if was_busy else '-'
-                emit('expire %d %d' % (proc.idx, keep))
+                do_expire(proc, 1 if op[2] else 0)
             elif k == 'reconnect':
                 flags['expire'] = True
                 if proc.busy:
